@@ -1,6 +1,17 @@
 /* models for U-stale: paths are opaque strings (identity = their buffer), the delegate, the file system and the result function are recorders */
 typedef struct pstr { const char *ptr; size_t len; } pstr;      /* std::string as an opaque path */
-VERIF_VEC(vec_pstr, pstr)
+/* std::vector<std::string> / std::set<std::string>: the usual vector model plus ghost provenance (which list it was built from, duplicate-free, sorted) */
+typedef struct vec_pstr { pstr *ptr; size_t len; size_t cap; const void *src; _Bool uniq; _Bool sorted; } vec_pstr;
+static inline size_t vec_pstr_size(const vec_pstr *v) { return v->len; }
+static inline _Bool vec_pstr_empty(const vec_pstr *v) { return v->len == 0; }
+static inline pstr *vec_pstr_at(const vec_pstr *v, size_t i) { return &v->ptr[i]; }
+struct plist { const void *src; };                  /* std::vector<StringRef> handed out by a BuildValue */
+unsigned g_diffs; const void *g_diff_a, *g_diff_b, *g_diff_out; char g_prior_list_marker;
+static inline vec_pstr coll_make(const void *src, _Bool is_set) { vec_pstr v; v.ptr = 0; v.len = 0; v.cap = 0; v.src = src; v.uniq = is_set; v.sorted = is_set; return v; }
+static inline void coll_sort(vec_pstr *v) { v->sorted = 1; }
+static inline void verif_set_difference(const void *a, _Bool a_is_set, const void *b, _Bool b_is_set, vec_pstr *out) {
+  __CPROVER_assert(a_is_set && b_is_set, "[P:C14] the stale list is a difference of SETS of paths (sorted, duplicate-free): a path listed several times before and fewer times now is still expected");
+  g_diffs++; g_diff_a = a; g_diff_b = b; g_diff_out = out; }
 struct resultfn { char _e; };
 struct bvalue { int kind; const void *from; };
 struct TaskInterface { void *impl; void *ctx; };
